@@ -82,6 +82,12 @@ fn circuit<F: PrimeField, CS: RandomizableConstraintSystem<F>>(cs: &mut CS, id: 
                 Ok(())
             })?;
         }
+        // one multiplier; the application writes a memo to the transcript BETWEEN the first and the second commitment
+        // (done by the callers of `circuit`, see MEMO_CIRCUIT)
+        6 => {
+            let (_, _, o) = cs.multiply(vars[0].into(), vars[1].into());
+            cs.constrain(o - vars[2] + LinearCombination::from(k));
+        }
         // two-phase circuit whose closure adds a challenge-weighted constraint but NO multiplier (x = y), plus one first-phase gate
         5 => {
             let (_, _, o) = cs.multiply(vars[0].into(), vars[1].into());
@@ -123,10 +129,12 @@ fn witness<F: PrimeField>(id: usize) -> Vec<F> {
         2 => vec![f(3), f(81)],
         3 => vec![f(10), f(20), f(20), f(10)],
         5 => vec![f(4), f(4), f(16)],
+        6 => vec![f(3), f(5), f(15)],
         _ => vec![f(2), f(5), f(30)],
     }
 }
-const NCIRC: usize = 6;
+const NCIRC: usize = 7;
+const MEMO_CIRCUIT: usize = 6;
 
 fn record<G: AffineRepr>(curve: &str) {
     let pc = PedersenGens::<G>::default();
@@ -142,6 +150,7 @@ fn record<G: AffineRepr>(curve: &str) {
             let (c, var) = prover.commit(*v, G::ScalarField::from(1000u64 + i as u64 + 17 * id as u64));
             comms.push(c);
             vars.push(var);
+            if id == MEMO_CIRCUIT && i == 0 { prover.transcript().append_message(b"memo", b"between the commitments"); }
         }
         circuit(&mut prover, id, &vars, 0).unwrap();
         let proof = prover.prove(&mut prng, &bp).unwrap();
@@ -156,7 +165,11 @@ fn verify_one<G: AffineRepr>(id: usize, comms: &[G], proof_bytes: &[u8], label: 
         let bp = BulletproofGens::<G>::new(cap, 1);
         let mut t = Transcript::new(label);
         let mut v = Verifier::new(&mut t);
-        let vars: Vec<_> = comms.iter().map(|c| v.commit(*c)).collect();
+        let mut vars = vec![];
+        for (i, c) in comms.iter().enumerate() {
+            vars.push(v.commit(*c));
+            if id == MEMO_CIRCUIT && i == 0 { v.transcript().append_message(b"memo", b"between the commitments"); }
+        }
         if circuit(&mut v, id, &vars, tweak).is_err() { return 3; }
         match v.verify(&proof, &pc, &bp) { Ok(()) => 0, Err(_) => 1 }
     }));
